@@ -78,6 +78,8 @@ PROPERTIES["C16"] = {
         K("c16_header_len_5", timeout=900, shared_covers=True),
         K("c16_header_seed_5", timeout=900, shared_covers=True),
         K("c16_header_total_bin4", timeout=900),
+        K("c16_encoder_width_1", timeout=900),
+        K("c16_encoder_width_3", timeout=900),
         K("c16_header_width_10", timeout=900, shared_covers=True),
         K("c16_header_len_10", timeout=900, shared_covers=True),
         K("c16_header_seed_10", timeout=900, shared_covers=True),
@@ -91,7 +93,8 @@ PROPERTIES["C16"] = {
         "shuttle_engine::scheduler::serialization::varint::{space_needed, WriteVarInt::write_u64_varint, "
         "ReadVarInt::read_u64_varint, read_u8}",
         "shuttle_engine::scheduler::serialization::deserialize_schedule (whitespace filter on the empty string, "
-        "version check, three header varints, width/length validation, step loop over bitvec::BitSlice)",
+        "version check, three header varints, width/length validation; the step loop over bitvec::BitSlice only in the <=3-byte harnesses, where it is not reached)",
+        "shuttle_engine::scheduler::serialization::serialize_schedule (largest task id, id width, allocation size; up to BitVec::repeat)",
     ],
     "bounds_text": "varint kernels: every u64 (encode, length, decode, exact consumption), every byte string of "
     "length <= 11 (decoder total, <= 10 bytes read); decoder binary stage: every byte vector of length 0..=3 "
@@ -100,18 +103,22 @@ PROPERTIES["C16"] = {
     "header is valid, end the path'): one header field (width / announced length / seed) a varint of exactly 1, 2, 5 or 10 bytes "
     "(quick; 9 thorough) with every payload bit symbolic, the other fields single bytes: a header gets through exactly when its "
     "width is 1..=64 and its varints are well-formed; every byte vector of length 4 (quick) / 6, 12 (thorough): rejected or "
-    "reaches step decoding, never a panic; unwind 12-14",
+    "reaches step decoding, never a panic; encoder up to the entry of step packing (BitVec::repeat stubbed the same way): for "
+    "every schedule of 1 / 3 steps, each a random marker or a task step with any usize id, the bit vector the encoder allocates "
+    "can hold every step at the id width the largest id needs (at least 1 bit); unwind 6-14",
     "outside": "symbolic *strings* (str::chars/String::from_iter/hex on symbolic bytes exhaust 12 GB for 2 "
     "characters): the third-party `hex` layer is an environment stub returning arbitrary bytes; everything behind the "
     "entry of step decoding (the `bitvec` crate: step decoding, the announced-length-versus-data check, the encoder's step "
     "packing, whole-schedule round trips) exhausts 12 GB even for a header with no data and is cut off by a stub in the "
-    "header harnesses; the encoder's header",
+    "header harnesses; the header bytes the encoder writes (behind the packing stage)",
     "rule": "",
     "assumptions": STANDARD_ASSUMPTIONS
     + ["hex::encode / hex::decode replaced by an environment stub: decode returns the harness's arbitrary byte "
        "vector (or an error), i.e. the claim is over every byte vector hex decoding could produce",
        "c16_header_* only: bitvec::slice::BitSlice::from_slice replaced by a stub that asserts the harness's reference verdict "
-       "on the header and ends the path (kani::assume(false)): nothing behind it is part of those harnesses' claim"],
+       "on the header and ends the path (kani::assume(false)): nothing behind it is part of those harnesses' claim",
+       "c16_encoder_width_* only: bitvec::vec::BitVec::repeat (the allocation made by `bitvec![..]`) replaced by a stub that "
+       "asserts the requested length against the harness's reference and ends the path"],
 }
 
 
